@@ -426,8 +426,8 @@ def run_case(case, ctx, mode):
 
 
 SUBCHECKS = [
-    SubCheck("queries", kd_case(True), fn_queries, quick=8000, thorough=40000),
-    SubCheck("build", kd_case(False), fn_build, quick=3000, thorough=20000),
+    SubCheck("queries", kd_case(True), fn_queries, quick=8000, thorough=24000),
+    SubCheck("build", kd_case(False), fn_build, quick=3000, thorough=10000),
 ]
 
 MATCHERS = {}
